@@ -5,7 +5,6 @@ import (
 	"os"
 	"reflect"
 	"strings"
-	"sync"
 
 	"github.com/gofiber/fiber/v3/client"
 
@@ -28,9 +27,12 @@ const (
 	sendStruct = iota
 	sendAdders
 	sendMaps
+	sendTwiceReq      // request-level struct setter called twice: a filler value of the same type, then the value
+	sendTwiceClient   // client-level struct setter called twice (query, cookie), the request adds nothing
+	sendClientThenReq // filler at client level, the value at request level: observed only (see genSend)
 )
 
-var sendName = [...]string{"struct-setter", "adders", "map-setters"}
+var sendName = [...]string{"struct-setter", "adders", "map-setters", "struct-setter-twice-on-request", "struct-setter-twice-on-client", "client-level-struct-then-request-level-struct"}
 
 type sendSpec struct {
 	mode        int
@@ -39,43 +41,43 @@ type sendSpec struct {
 	files       int
 	fileAPI     int // 0 AddFileWithReader, 1 AddFiles(AcquireFile), 2 AddFile(path)
 	fileFirst   bool
+	filler      reflect.Value // the struct the setter is given first (twice modes)
 }
 
-var (
-	tmpOnce sync.Once
-	tmpPath string
-)
-
-// tmpFile is a small file on disk for AddFile(path); removed by removeTmpFile at the end of the run.
-func tmpFile() string {
-	tmpOnce.Do(func() {
-		f, err := os.CreateTemp("", "vh-bind-upload-*.txt")
-		if err != nil {
-			return
-		}
-		_, _ = f.WriteString("file-content")
-		_ = f.Close()
-		tmpPath = f.Name()
-	})
-	return tmpPath
-}
-
-func removeTmpFile() {
-	if tmpPath != "" {
-		_ = os.Remove(tmpPath)
+// uploadFile writes a small file for AddFile(path); the rig removes it right after the request
+// (a file that lives as long as the process would be left behind when the process is killed).
+func (r *rig) uploadFile() string {
+	f, err := os.CreateTemp("", "vh-bind-upload-*.txt")
+	if err != nil {
+		return ""
 	}
+	_, _ = f.WriteString("file-content")
+	_ = f.Close()
+	r.tmp = append(r.tmp, f.Name())
+	return f.Name()
 }
 
-func attachFiles(req *client.Request, s *sendSpec) {
+func (r *rig) removeUploads() {
+	for _, p := range r.tmp {
+		_ = os.Remove(p)
+	}
+	r.tmp = r.tmp[:0]
+}
+
+func (r *rig) attachFiles(req *client.Request, s *sendSpec) {
 	n, api := 1, 0
 	if s != nil && s.files > 0 {
 		n, api = s.files, s.fileAPI
 	}
 	for i := 0; i < n; i++ {
 		name := "w" + string(rune('0'+i)) + ".txt"
+		path := ""
+		if api == 2 {
+			path = r.uploadFile()
+		}
 		switch {
-		case api == 2 && tmpFile() != "":
-			req.AddFile(tmpFile())
+		case path != "":
+			req.AddFile(path)
 		case api == 1:
 			req.AddFiles(client.AcquireFile(client.SetFileName(name), client.SetFileFieldName("upload"+string(rune('0'+i))),
 				client.SetFileReader(io.NopCloser(strings.NewReader("file-content")))))
@@ -91,7 +93,20 @@ func genSend(r *gen.Rand, src source, t *typeSpec, val reflect.Value) *sendSpec 
 		return nil
 	}
 	s := &sendSpec{files: r.Range(1, 2), fileAPI: r.PickW(5, 3, 1), fileFirst: r.Chance(1, 3)}
-	s.mode = r.PickW(5, 4, 1)
+	s.mode = r.PickW(10, 8, 2, 4, 2, 1)
+	if src == sHeader && s.mode >= sendTwiceReq {
+		s.mode = sendAdders // the client has no struct setter for headers
+	}
+	if (src == sForm || src == sMultipart) && s.mode > sendTwiceReq {
+		s.mode = sendTwiceReq // form data exists at request level only
+	}
+	if s.mode >= sendTwiceReq {
+		// "sets ... from a struct, overriding previously set values": whatever the first struct
+		// held, the server must bind the second one, empty slices and zero scalars included.
+		// (sendClientThenReq is different: client-level and request-level parameters are merged by
+		// the request hooks and nothing states which one wins for a multi-valued key; counted only.)
+		s.filler = genFiller(r, src, t)
+	}
 	if s.mode == sendAdders {
 		s.interleaved = r.Chance(3, 4)
 		s.sched = makeSchedule(r, t, val, s.interleaved)
@@ -180,8 +195,35 @@ func (s *sendSpec) calls(p *probe) []string {
 func (r *rig) sendPieces(req *client.Request, p *probe) (*client.Response, error) {
 	s := p.send
 	tag := sourceTag[p.src]
+	real := p.want.Interface()
 	fill := func() {
 		switch s.mode {
+		case sendTwiceReq:
+			fl := s.filler.Interface()
+			switch p.src {
+			case sQuery:
+				req.SetParamsWithStruct(fl).SetParamsWithStruct(real)
+			case sForm, sMultipart:
+				req.SetFormDataWithStruct(fl).SetFormDataWithStruct(real)
+			case sCookie:
+				req.SetCookiesWithStruct(fl).SetCookiesWithStruct(real)
+			}
+		case sendTwiceClient, sendClientThenReq:
+			fl := s.filler.Interface()
+			cl2 := client.NewWithClient(r.fc) // same transport, its own client-level parameters
+			switch {
+			case p.src == sQuery && s.mode == sendTwiceClient:
+				cl2.SetParamsWithStruct(fl).SetParamsWithStruct(real)
+			case p.src == sQuery:
+				cl2.SetParamsWithStruct(fl)
+				req.SetParamsWithStruct(real)
+			case p.src == sCookie && s.mode == sendTwiceClient:
+				cl2.SetCookiesWithStruct(fl).SetCookiesWithStruct(real)
+			case p.src == sCookie:
+				cl2.SetCookiesWithStruct(fl)
+				req.SetCookiesWithStruct(real)
+			}
+			req.SetClient(cl2)
 		case sendAdders:
 			for _, c := range s.sched {
 				k, v := s.element(p, c)
@@ -234,11 +276,11 @@ func (r *rig) sendPieces(req *client.Request, p *probe) (*client.Response, error
 		return req.Get(rigURL)
 	case sMultipart:
 		if s.fileFirst {
-			attachFiles(req, s)
+			r.attachFiles(req, s)
 			fill()
 		} else {
 			fill()
-			attachFiles(req, s)
+			r.attachFiles(req, s)
 		}
 	default:
 		fill()
@@ -246,8 +288,29 @@ func (r *rig) sendPieces(req *client.Request, p *probe) (*client.Response, error
 	return req.Post(rigURL)
 }
 
-// sendCorpus: the smallest interleaved witnesses, one per source and file API.
+// sendCorpus: the smallest interleaved witnesses, one per source and file API; and the struct
+// setter called twice with a value of empty slices and zero scalars after a filler.
 func (en *engine) sendCorpus() {
+	for _, src := range []source{sQuery, sForm, sMultipart, sCookie} {
+		for _, mode := range []int{sendTwiceReq, sendTwiceClient} {
+			if mode == sendTwiceClient && src != sQuery && src != sCookie {
+				continue
+			}
+			src, mode := src, mode
+			en.e.Corpus("send-"+sourceName[src]+"-"+sendName[mode], func(c *ev.Case) {
+				t := buildType("send-demo", []fieldSpec{{Name: fieldName(0), K: kString}, {Name: fieldName(1), K: kString, Slice: true}, {Name: fieldName(2), K: kInt, Slice: true}}, false)
+				fl := reflect.New(t.RT).Elem()
+				fl.Field(0).SetString("x")
+				fl.Field(1).Set(reflect.ValueOf([]string{"a", "b"}))
+				fl.Field(2).Set(reflect.ValueOf([]int{7}))
+				v := reflect.New(t.RT).Elem() // "", nil, empty
+				v.Field(2).Set(reflect.ValueOf([]int{}))
+				s := &sendSpec{mode: mode, files: 1, filler: fl}
+				en.judge(c, "roundtrip", plan{src: src, op: opFor(src), auto: true, typ: t, send: s}, v)
+				en.e.Nontrivial("corpus", c.ID)
+			})
+		}
+	}
 	mk := func() (*typeSpec, reflect.Value) {
 		t := buildType("send-demo", []fieldSpec{{Name: fieldName(0), K: kString}, {Name: fieldName(1), K: kString, Slice: true}, {Name: fieldName(2), K: kInt, Slice: true}}, false)
 		v := reflect.New(t.RT).Elem()
@@ -276,4 +339,32 @@ func (en *engine) sendCorpus() {
 			}
 		}
 	}
+}
+
+// genFiller is the value the struct setter is given first: every slice has elements, so that an
+// empty slice in the value that follows has something to override.
+func genFiller(r *gen.Rand, src source, t *typeSpec) reflect.Value {
+	d := newDomain(src, true)
+	v := reflect.New(t.RT).Elem()
+	for i := range t.Fields {
+		f := &t.Fields[i]
+		if f.Nested != nil {
+			continue
+		}
+		fv := v.FieldByName(f.Name)
+		if !f.Slice {
+			setScalar(r, d, f.K, fv, 12)
+			if f.K == kString && fv.String() == "" {
+				fv.SetString("filler")
+			}
+			continue
+		}
+		n := r.Range(1, 3)
+		sl := reflect.MakeSlice(fv.Type(), 0, n)
+		for j := 0; j < n; j++ {
+			sl = reflect.Append(sl, plainValue(f.K, 40+j))
+		}
+		fv.Set(sl)
+	}
+	return v
 }
